@@ -8,6 +8,7 @@ import msi as _msi
 import jar as _jar
 import apk as _apk
 import cab as _cab
+import appx as _appx
 _c09 = importlib.import_module("props.c09")
 _c19 = importlib.import_module("props.c19")
 
@@ -15,7 +16,7 @@ TIE = "corr:pe-digest + pe-pagehash-spec + cab-digest-spec + pechecksum + merkle
 TIE_THEOREM = ("Relic.Props.C05.pe_hash_eq_spec / pe_page_hashes_eq_spec / cab_digest_eq_spec / cab_digest_eq_spec_signed / fix_pe_checksum_eq_spec / pe_checksum_eq_spec / apk_digest_eq_spec / "
                "ecdsa_pack_fixed_width / msi_order_eq_spec / msi_prehash_eq_spec / msi_digest_eq_spec (models tied to lib/authenticode, signers/apk, lib/x509tools by differential execution)")
 RULE = ("ops of the models that carry the model-vs-specification theorems: " + _pe.RULE + " || " + _cab.RULE[:900] + " || C09 subset: cksum, fixpe, fixpehex, merkle — "
-        + _c09.RULE[:600] + " || C19 subset: ecdsa, ecdsasign, every 4th canon op (canonical form vs the executable Exclusive-C14N specification; the deviations F16-* are listed for C05 too) || " + _msi.RULE)
+        + _c09.RULE[:600] + " || C19 subset: ecdsa, ecdsasign, every 4th canon op (canonical form vs the executable Exclusive-C14N specification; the deviations F16-* are listed for C05 too) || " + _msi.RULE + " || " + _appx.RULE)
 ASSUMPTIONS = list(_pe.ASSUMPTIONS) + list(_cab.ASSUMPTIONS) + list(_msi.ASSUMPTIONS) + ["the specifications are transcribed by hand into Relic/Spec/{Authenticode,PageHashes,CabDigest,PEChecksum,ApkV2,MsiDigest}.lean"]
 TRUSTED = list(_pe.TRUSTED) + list(_cab.TRUSTED) + list(_msi.TRUSTED) + ["external reference verifiers (jarsigner, JDK XML-DSig, openssl cms/ts, gpgv, dpkg) are NOT run: that half of C05 is outside this technique (DESIGN.md section 5, C05)"]
 UNPROVED = ["pe_hash_eq_msdoc_spec (the section-sorted wording of the Microsoft document; the flat form is proved)",
@@ -27,7 +28,8 @@ UNPROVED = ["pe_hash_eq_msdoc_spec (the section-sorted wording of the Microsoft 
             "memory of osslsigncode / [MS-CAB], no Microsoft-signed cabinet is available offline to validate it",
             "jar_sections_first_blank_line_full", "jar_fold_unfold_section_full",
             "msi_order_eq_spec holds under hypotheses (well-formed, pairwise distinct sibling names; no signature name below the root); "
-            "outside them the code and the specification differ: msi_cmp_differs_embedded_nul"]
+            "outside them the code and the specification differ: msi_cmp_differs_embedded_nul",
+            "appx_digest_eq_spec is proved for the layout form of Spec.AppxDigest (Cut); the file form (SpecAppx.ofFile through Spec.Zip.parse) is evaluated on every op and on the Microsoft-signed fixture, not proved"]
 IMPL_PARALLEL = 8
 
 
@@ -74,9 +76,26 @@ class _ApkAdapter:
         return _apk.predicate("C05", op, il, mres, tag)
 
 
+class _AppxAdapter:
+    nontrivial = staticmethod(_appx.nontrivial)
+    branch = staticmethod(_appx.branch)
+
+    @staticmethod
+    def matches_known(k, op, il, mres, tag):
+        return _appx.matches_known(k, op, il, mres, tag)
+
+    @staticmethod
+    def agree(op, il, mres, tag):
+        return _appx.equiv(op, il, mres)
+
+    @staticmethod
+    def predicate(op, il, mres, tag):
+        return _appx.predicate("C05", op, il, mres, tag)
+
+
 def _m(op):
     t = op.split(" ", 1)[0]
-    return {"PE": None, "JAR": _JarAdapter, "APK": _ApkAdapter, "CAB": _CabAdapter, "C09": _c09, "C19": _c19}.get(t)
+    return {"PE": None, "JAR": _JarAdapter, "APK": _ApkAdapter, "APPX": _AppxAdapter, "CAB": _CabAdapter, "C09": _c09, "C19": _c19}.get(t)
 
 
 def canon_model(op, mres):
@@ -84,6 +103,8 @@ def canon_model(op, mres):
         return _jar.canon_model(op, mres)
     if op.startswith("MSI "):
         return _msi.canon_model(op, mres)
+    if op.startswith("APPX "):
+        return _appx.canon_model(op, mres)
     if op.startswith("CAB "):
         return _cab.canon_model(op, mres)
     return _pe.canon_model(op, mres) if op.startswith("PE ") else mres
